@@ -53,6 +53,9 @@ func (s *Suback) Decode(src []byte) (int, error) {
 		return total, err
 	}
 
+	// ignore bytes that follow the packet
+	src = limitToPacket(src)
+
 	// read packet id
 	pid, n, err := readUint(src[total:], 2, SUBACK)
 	total += n
